@@ -101,6 +101,12 @@ func runC45(c *an.Ctx) {
 		if fn != nil {
 			site = c.P.Rel(fn.Pos())
 		}
+		if fn == nil && n == "verifySingleController" {
+			// a one-line private forwarder (checkWitnessByIndex of the controller): when it is inlined at its call
+			// sites the callers carry the witness check themselves and are judged by the handler rule below
+			c.Note("wrapper|ontid."+n, "the helper fails (error / false) whenever every witness check inside it fails", "-", "the private forwarder no longer exists (inlined); its callers are judged directly")
+			continue
+		}
 		c.Check(found, "wrapper|ontid."+n, "the helper fails (error / false) whenever every witness check inside it fails", site,
 			"a success return is reachable with all witness checks failing")
 	}
@@ -204,7 +210,17 @@ func runC45(c *an.Ctx) {
 
 	regHandlers := map[string]bool{"regIDWithPublicKey": true, "regIDWithController": true, "regIDWithAttributes": true}
 	witnessEff := &an.Effects{P: c.P, IsSink: isSink, InScope: inScope, Guards: wguards, NonEmpty: nonEmpty}
-	stateEffMod := &an.Effects{P: c.P, IsSink: isSink, InScope: inScope, Guards: []*an.Guard{stateGuardMod}}
+	// "the identity is valid": isValid(..), or its body written in place - checkIDState(..) == flag_valid in any
+	// spelling (the guard fails when the state differs from flag_valid)
+	isStateCall := func(x ssa.Value) bool {
+		call, isCall := x.(*ssa.Call)
+		return isCall && call.Call.StaticCallee() == checkIDState
+	}
+	inPlaceValid := relGuards("checkIDState == flag_valid", token.NEQ, isStateCall, func(y ssa.Value) bool {
+		k, isC := y.(*ssa.Const)
+		return isC && k.Value != nil && constant.Compare(k.Value, token.EQL, constant.MakeInt64(1))
+	})
+	stateEffMod := &an.Effects{P: c.P, IsSink: isSink, InScope: inScope, Guards: append([]*an.Guard{stateGuardMod}, inPlaceValid...)}
 	stateEffReg := &an.Effects{P: c.P, IsSink: isSink, InScope: inScope, Guards: []*an.Guard{&stateGuardRegNE, &stateGuardRegEQ}}
 
 	var names []string
